@@ -50,7 +50,7 @@ def all_cases(tier):
     for pat in PATTERNS[tier]:
         if tier == "thorough" and pat == PATTERNS["quick"][0]:
             pass
-        for sv in itertools.product(range(6), range(5), range(5), range(5), range(7)):
+        for sv in itertools.product(range(6), range(5), range(5), range(5), range(8)):
             for pl in PLACEMENTS:
                 yield (sv, pl, pat)
 
@@ -166,7 +166,9 @@ def sources(sv, pat):
         st.append("imp: int")
     if o in (1, 3, 4, 5):
         rt.append(block(["def o(a):", d(rt_doc, "Runtime doc o."), "    return a"]))
-    if o in (2, 3, 5, 6):
+    if o == 7:
+        rt.append("from nowhere_at_all import o")  # the runtime member is an import alias that cannot be resolved
+    if o in (2, 3, 5, 6, 7):
         st.append("@overload\ndef o(a: int) -> int: ...\n@overload\ndef o(a: str) -> str: ...")
     if o in (5, 6):
         st.append("def o(a): ...")  # (6: the function exists in the stubs only, as overloads followed by an implementation-style signature)
@@ -267,6 +269,8 @@ def expected(sv, pat):
         e["imp"] = {"kind": "alias", "runtime": False, "target": "os.path", "resolved": False}
     if o in (1, 4):
         e["o"] = {"kind": "function", "runtime": True, "doc": "Runtime doc o." if rt_doc else None, "params": [("a", None)], "returns": None, "overloads": None}
+    elif o == 7:
+        e["o"] = {"kind": "alias", "runtime": True, "target": "nowhere_at_all.o", "resolved": False}
     elif o == 6:
         e["o"] = {"kind": "function", "runtime": False, "doc": None, "params": [("a", None)], "returns": None, "overloads": ["int", "str"]}
     elif o in (3, 5):
@@ -327,7 +331,7 @@ def run_case(griffe, acc, case):
     for where, fld, g, e in _diff(results["asc"][0], exp):
         slot = where.split(".")[0]
         st = sv[names[slot]] if slot in names else -1
-        status = "stub-overloads+implementation" if (slot == "o" and st == 5) else "stub-only-overloads+implementation" if (slot == "o" and st == 6) else "both+stub-only-parameter" if (slot == "f" and st == 5) else (STATUS[st] if 0 <= st < 5 else "?")
+        status = "stub-overloads+implementation" if (slot == "o" and st == 5) else "stub-only-overloads+implementation" if (slot == "o" and st == 6) else "runtime-unresolvable-alias+stub-overloads" if (slot == "o" and st == 7) else "both+stub-only-parameter" if (slot == "f" and st == 5) else (STATUS[st] if 0 <= st < 5 else "?")
         acc.violation(f"merge/{where}/{status}/{fld}" + (f"/{pl}" if fld in ("missing", "extra") else ""), f"{modpath}.{where} ({status}): {fld} is {g!r}, reference merge says {e!r}", cd, {"placement": pl}, size=size)
 
 
